@@ -70,6 +70,7 @@ def reaches(cat, dim, e):
 
 # the object of the same category reached from a MUTABLE view of the same dimensionality: a read-only one must not convert into it
 MUTABLE_TWIN = {
+    "view": "MV{d}",
     "iterator": "decltype(std::declval<MV{d}&>().begin())",
     "eiter": "decltype(std::declval<MV{d}&>().elements().begin())",
     "erange": "decltype(std::declval<MV{d}&>().elements())",
@@ -118,7 +119,7 @@ def tu_source(paths):
             out.append("OBS(P%d_s, swap(std::declval<MV%d&&>(), %s))" % (pid, rec["dim"], e))
             names.append("P%d_s" % pid)
         if "c" in extra_names(rec["cat"], rec["dim"]):
-            out.append("OBSC(P%d_c, %s, %s, %s)" % (pid, e, MUTABLE_TWIN[rec["cat"]].format(d=rec["dim"]), "false" if rec["cat"] == "erange" else "true"))
+            out.append("OBSC(P%d_c, %s, %s, %s)" % (pid, e, MUTABLE_TWIN[rec["cat"]].format(d=rec["dim"]), "false" if rec["cat"] in ("erange", "view") else "true"))
             names.append("P%d_c" % pid)
         fmt = "%d" + " %d" * len(names)
         main.append('  std::printf("%s\\n", %d, %s);' % (fmt, pid, ", ".join("%s<%s>::v" % (n, st) for n in names)))
